@@ -179,11 +179,14 @@ func init() {
 		Rule: "a snapshotter thread takes 1-2 snapshots to a SimFile while 2-4 writers commit updates, merges, deletes and inserts (single- and multi-block); yield points in Snapshot (recorder opened, before each block, state written, recorder closed) and in the commit path; each snapshot is restored and every block must equal the model after some prefix j of the commits applied to that block in latch order with acknowledged-before-call <= j <= applied-at-return; Snapshot must not fail or panic; non-trivial = at least one commit and one real scheduling choice; distinct = distinct (interleaving signature, end state)",
 		Gen: func(seed uint64, run int, tier string) *Case {
 			cs := genConc("C08", seed, run, concProfile{minWriters: 2, maxWriters: 4, maxTxns: 3, maxOps: 3, snapshots: 1,
-				wUpdate: 8, wMerge: 4, wInsert: 3, wDeleteOwn: 2, wRangeWrite: 1,
-				pAbort: 0.05, multiBlock: 0.5, maxCols: 4, stableRows: [2]int{1, 4}}, knownAvoid("C08", seed, run))
+				wUpdate: 8, wMerge: 4, wInsert: 3, wDeleteOwn: 2, wRangeWrite: 1, wKey: 10,
+				pAbort: 0.05, multiBlock: 0.5, maxCols: 4, pKeyCol: 0.2, stableRows: [2]int{1, 4}}, knownAvoid("C08", seed, run))
 			// the strategy mix is weighted towards the phase-biased variants
 			if NewRng(seed, uint64(run), 9).Chance(0.5) {
 				cs.Strategy = "phase"
+			}
+			if run%10 == 9 {
+				keyMoveTemplate(cs, seed, run)
 			}
 			return cs
 		},
@@ -473,6 +476,49 @@ func init() {
 		},
 		Real: realComponents, Stub: seqStub,
 	})
+}
+
+// keyMoveTemplate rewrites a C08 case into the "a key moves to another block while the
+// snapshot is between the two blocks" history: block 0 is full of keyless rows except for one
+// hole; set-up puts key k0 into the hole and k1 into block 1; the snapshotter starts at once
+// and is stalled in front of block 1; meanwhile one writer deletes k0 and later inserts it
+// again while another writer inserts a key of its own (which, scheduled in between, takes
+// the hole, so that k0 comes back in block 1). The log tail then holds the delete of a row
+// whose key already resolves to a row of a block captured later.
+func keyMoveTemplate(cs *Case, seed uint64, run int) {
+	r := NewRng(seed, uint64(run), 88)
+	kc := -1
+	for i, c := range cs.Schema {
+		if c.Kind == KKey {
+			kc = i
+		}
+	}
+	if kc < 0 {
+		cs.Schema = append(cs.Schema, ColSpec{Name: "pk", Kind: KKey})
+	}
+	cs.Indexes = nil
+	cs.Cfg.KeyAlpha = []string{"k0", "k1", "k2"}
+	cs.Cfg.Prefill = &Prefill{Blocks: 1, KeepFull: []int{0}, Holes: []uint32{uint32(r.Intn(1 << 14))}}
+	cs.Cfg.Params["shared_keys"] = 0
+	var val []Write
+	for _, c := range cs.Schema {
+		if c.Kind.Numeric() && c.Name != "expire" {
+			val = append(val, Write{Col: c.Name, Val: Val{U: uint64(r.Intn(100))}})
+			break
+		}
+	}
+	cs.Steps = []Step{{Kind: "txn", Txn: &TxnProg{Ops: []Op{{Kind: "insertkey", Key: "k0", Writes: val}, {Kind: "insertkey", Key: "k1", Writes: val}}}}}
+	cs.Threads = []ThreadProg{
+		{Role: "writer", Txns: []TxnProg{{Ops: []Op{{Kind: "deletekey", Key: "k0"}}}, {Ops: []Op{{Kind: "insertkey", Key: "k0", Writes: val}}}}},
+		{Role: "writer", Txns: []TxnProg{{Ops: []Op{{Kind: "insertkey", Key: "k2", Writes: val}}}}},
+		{Role: "snapshot", Txns: make([]TxnProg, 1)},
+	}
+	cs.Faults = []Fault{
+		{Kind: "stall", Role: "writer", At: int(ptStart), N: r.Range(5, 9)},
+		{Kind: "stall", Role: "writer", At: int(ptStart), N: r.Range(5, 12)},
+		{Kind: "stall", Role: "snapshot", At: 1, Arg: 2, N: r.Range(60, 140)}, // in front of block 1
+	}
+	cs.Muted = nil
 }
 
 func b2i(b bool) int {
